@@ -183,10 +183,50 @@ def one(rng, root, env, toks, nodes, text, desc):
                 sig="xpath|findall-vs-match" if oracle else "xpath|model")
 
 
+_DYN = [0]
+_DYN_NS = {"dataclass": __import__("dataclasses").dataclass, "Leaf": zoo.Leaf, "Un": zoo.Un, "__name__": "c07_dynamic_classes"}
+
+
+def dyn_class_cases(rng):
+    """class-definition history: an xpath text naming a class (1) before the class exists: rejected; (2) after the
+    class was defined: finds exactly the instances; (3) after the class was defined AGAIN under the same name in the
+    same module (allowed: the name then denotes the new class): the very same text finds the instances of the new
+    class.  "A step matches a node iff it is an instance of the named class" — for the class the name denotes now."""
+    import zoo_c08
+    _DYN[0] += 1
+    name = f"Dyn{_DYN[0]}X{rng.randrange(10 ** 6)}"
+    texts = [f"//{name}", f"/Tup/@items {name}", f"//@items[1]{name}", f"//Un/{name}"]
+    rng.shuffle(texts)
+    texts = texts[:3]
+    base_env = zoo.class_table()
+    for t in texts[:2]:
+        c = one(rng, zoo.Leaf(v=1), [base_env, zoo.OrgTable().sexp(), [A("tree"), zoo.enc_tree(zoo.Leaf(v=1), zoo.Tokens(), zoo.OrgTable())]],
+                zoo.Tokens(), [], t, "(class not defined yet)")
+        c.desc += f" (class {name} not defined yet)"
+        yield c
+    for round_ in (1, 2):
+        exec(f"@dataclass(frozen=True)\nclass {name}({'Leaf' if round_ == 1 or rng.random() < 0.5 else 'Un'}):\n    pass\n", _DYN_NS)
+        cls = _DYN_NS[name]
+        zoo_c08.register_leaf_class(cls)
+        mk = (lambda i: cls(v=i)) if issubclass(cls, zoo.Leaf) else (lambda i: cls(zoo.Leaf(v=i)))
+        root = zoo.Tup((mk(1), zoo.Leaf(v=1), mk(2), zoo.Un(mk(3))))
+        toks = zoo.Tokens()
+        orgs = zoo.OrgTable()
+        tree = zoo.enc_tree(root, toks, orgs)
+        env = [base_env + [zoo_c08.class_row(cls)], orgs.sexp(), [A("tree"), tree]]
+        nodes = [root] + [c for (c, p, f, i) in zoo.positions(root)]
+        for t in texts:
+            c = one(rng, root, env, toks, nodes, t, zoo.show(root))
+            c.desc += f" (class {name} defined {'again, same name' if round_ == 2 else 'after the text was first used'})"
+            yield c
+
+
 def cases(rng: random.Random, tier: str):
     n_trees = 120 if tier == "quick" else 2500
     per_tree = 14 if tier == "quick" else 20
-    for _ in range(n_trees):
+    for it in range(n_trees):
+        if it % 12 == 0:
+            yield from dyn_class_cases(rng)
         g = zoo.Gen(rng, origins=False, share=0.0)
         root = g.tree(rng.choice([1, 3, 6, 10, 20, 40]))
         glue = rng.random() < 0.08
